@@ -110,6 +110,7 @@ func c08Gen(t *rapid.T) c08Case {
 }
 
 type c08Rec struct {
+	ch       int
 	frame    int64
 	pre, n   int
 	data     []RawType
@@ -122,7 +123,7 @@ func c08Collect(c *vPipeCase) ([]c08Rec, *vVerdict) {
 			if f := vCheckExcerpt(c, tr, k, r); f != nil {
 				return f
 			}
-			out = append(out, c08Rec{frame: int64(r.trigFrame), pre: r.presamples, n: len(r.data), data: r.data})
+			out = append(out, c08Rec{ch: r.channelIndex, frame: int64(r.trigFrame), pre: r.presamples, n: len(r.data), data: r.data})
 		}
 		return nil
 	})
@@ -210,6 +211,66 @@ func c08Run(cc c08Case) (v vVerdict) {
 			return vFailf("emt-block-dependent", "record %d differs: one block gives (frame %d, pre %d, len %d), partition %v gives (frame %d, pre %d, len %d)",
 				i, x.frame, x.pre, x.n, c.Blocks, y.frame, y.pre, y.n)
 		}
+	}
+	seedv := 0
+	if len(c.Streams) > 0 {
+		seedv = c.Streams[0].Seed
+	}
+	if seedv%3 == 0 {
+		// schedules: the same stream on four channels, processed side by side (one goroutine per channel in ProcessSegments);
+		// every channel must give the records the single channel gave
+		m := c
+		m.Nchan = 4
+		m.Streams = []vStream{c.Streams[0], c.Streams[0], c.Streams[0], c.Streams[0]}
+		m.Pulses = nil
+		for ch := 0; ch < 4; ch++ {
+			for _, pu := range c.Pulses {
+				pu.Ch = ch
+				m.Pulses = append(m.Pulses, pu)
+			}
+		}
+		m.Hist = []vHistOp{{At: 0, Kind: "trigger", Chans: []int{0, 1, 2, 3}, Trig: cfg}}
+		if m.valid() {
+			recM, fail := c08Collect(&m)
+			if fail != nil {
+				fail.Msg = "four channels side by side: " + fail.Msg
+				return *fail
+			}
+			for ch := 0; ch < 4; ch++ {
+				var mine []c08Rec
+				for _, r := range recM {
+					if r.ch == ch {
+						mine = append(mine, r)
+					}
+				}
+				same := len(mine) == len(recB)
+				for i := 0; same && i < len(mine); i++ {
+					x, y := mine[i], recB[i]
+					same = x.frame == y.frame && x.pre == y.pre && x.n == y.n
+					for k := 0; same && k < x.n; k++ {
+						same = x.data[k] == y.data[k]
+					}
+				}
+				if !same {
+					return vFailf("emt-schedule-dependent", "the same stream on four channels processed side by side: channel %d gives records at %v, alone the stream gives %v", ch, c08Frames(mine), c08Frames(recB))
+				}
+			}
+			v.Classes = append(v.Classes, "four-channels-side-by-side")
+		}
+	}
+	if seedv%3 == 1 && len(c.Blocks) >= 2 {
+		// block pattern with lost data: the source's frame numbers jump between blocks. Nothing is asserted about the records
+		// (the stream re-labels what it holds); processing must not crash.
+		g := c
+		g.Gaps = make([]int, len(c.Blocks))
+		for k := 1; k < len(g.Gaps); k++ {
+			g.Gaps[k] = []int{0, 0, c.Nsamp + 11, 300, 5, 100000}[(seedv/3+k*7)%6]
+		}
+		if _, fail := vRunPipe(&g, nil); fail != nil && fail.Sig != "record-changed-after-publication" {
+			fail.Msg = "frame numbers jumping between blocks: " + fail.Msg
+			return *fail
+		}
+		v.Classes = append(v.Classes, "frame-gaps-between-blocks")
 	}
 	near := false
 	pos := 0
